@@ -1,6 +1,6 @@
 (** C15 -- script arguments, functions, source, exit statuses. Statements only. *)
 From Cicada Require Import Base.Chars Base.Peg Gen.LocustGrammar Model.Script Model.ScriptAst Model.Args Model.ShellScript
-  Proofs.ArgsProofs Proofs.SetEProofs Proofs.ScriptProofs.
+  Proofs.ArgsProofs Proofs.SetEProofs Proofs.ScriptProofs Proofs.ShellProofs.
 From Coq Require Import ZArith String Ascii.
 
 Definition S2 (s : string) : str := map N_of_ascii (list_ascii_of_string s).
@@ -186,6 +186,25 @@ Example C15_sete_source_regression :
   ex_run "c.sh" = ([S2 "one"; S2 "in_lib"; S2 "two"; S2 "fail7"], 7%Z).
 Proof. vm_compute. reflexivity. Qed.
 
+(** 3c. set -e lifted to the shell-state model (function calls, `source`), UNBOUNDED:
+    exit_on_error, once on, stays on through every line -- external command, `set -e`, a call of
+    a function whose body has ANY shape (the whole run_exp family preserves the flag:
+    Proofs/ShellProofs.v family_pres), `source` of ANY file (run_script restores the caller's flag) -- *)
+Theorem C15_flag_preserved : forall ext file_text n fuel,
+  (forall w l, s_eoe w = true -> s_eoe (fst (exec_line ext file_text n fuel w l)) = true) /\
+  (forall w p, s_eoe w = true -> s_eoe (fst (run_script ext file_text n fuel w p)) = true).
+Proof. intros. exact (exec_pres ext file_text n fuel). Qed.
+
+(** ... hence, with set -e in effect, a flat sequence of such lines (any number of calls and sources)
+    stops after the first line whose status is not 0, and the flag is still on afterwards. The status
+    of a call line is that of the last command of the body (C15_func_status). *)
+Theorem C15_sete_calls : forall ext file_text n fuel rif rfor rwh lines w,
+  forallb wf_line lines = true -> s_eoe w = true ->
+  exp_loop shs (exec_line ext file_text n fuel) s_eoe rif rfor rwh false (map cmd_node lines) w nil =
+  (let '(w1, crs) := run_until_fail shs (exec_line ext file_text n fuel) lines w in Done w1 crs false false)
+  /\ s_eoe (fst (run_until_fail shs (exec_line ext file_text n fuel) lines w)) = true.
+Proof. intros. apply sete_calls_flat; assumption. Qed.
+
 (** The property, in full, and its refutation on the faithful model (what is left: a token
     holding a newline is not expanded -- first clause, stated for ALL tokens). *)
 Definition C15_full : Prop :=
@@ -235,4 +254,6 @@ Print Assumptions C15_sete.
 Print Assumptions C15_sete_stops.
 Print Assumptions C15_refuted.
 Print Assumptions C15_sete_calls_instances.
+Print Assumptions C15_flag_preserved.
+Print Assumptions C15_sete_calls.
 
